@@ -245,7 +245,10 @@ class Gen:
             l, rr = self.str_value(), self.str_value()
             return {"t": "cmp", "op": op, "l": l, "r": rr} if op in ("==", "!=", "<") else {"t": "strop", "op": op, "l": l, "r": rr}
         if c < 0.72:   # floats: comparison and promotion, undefined operands
-            l = r.choice([{"t": "flt", "v": r.choice([0, 2, 6, 8])}, {"t": "ext", "name": "ext_f"}, {"t": "undef_f"}, {"t": "int", "v": r.choice([0, 1, 2])}])
+            l = r.choice([{"t": "flt", "v": r.choice([0, 2, 6, 8])}, {"t": "ext", "name": "ext_f"}, {"t": "undef_f"}, {"t": "int", "v": r.choice([0, 1, 2])},
+                          # an integer operand that is undefined at run time next to a float: the promotion must keep it undefined
+                          {"t": "undef_i"}, {"t": "uint", "n": r.choice([1, 2]), "be": False, "signed": False, "x": {"t": "bin", "op": "-", "l": {"t": "filesize"}, "r": {"t": "int", "v": r.choice([0, 1])}}},
+                          {"t": "soff", "s": "$_a", "i": {"t": "int", "v": r.choice([1, 9])}}])
             rr = r.choice([{"t": "flt", "v": r.choice([0, 2, 6, 8])}, {"t": "ext", "name": "ext_f"}, {"t": "undef_f"}])
             if r.random() < 0.3:
                 l = {"t": "bin", "op": r.choice("+-*"), "l": l, "r": {"t": "flt", "v": r.choice([2, 4, 6])}}
